@@ -769,7 +769,8 @@ class Prop:
     required_theorems = ['eval_code_eq_spec', 'eval_spec_is_functional', 'aspath_regex_ignored_pre_fix_refuted',
                          'eval_never_panics_api', 'eval_never_panics_wire', 'crud_preserves_references',
                          'crud_referenced_frozen', 'global_preserves_references', 'global_referenced_frozen', 'wire_aspath_decoded', 'wire_aspath_rendered', 'api_built_assignments_wf', 'prefix_merge_content', 'stored_sets_keys_unique',
-                         'crud_total_on_canonical_prefixes', 'peer_effective_export_wf',
+                         'crud_total_on_canonical_prefixes', 'peer_effective_export_wf', 'needs_rpki_cached_correctly',
+                         'gated_evaluation_history_independent',
                          'prefix_set_longest_match_refuted', 'aspath_patterns_refuted', 'arithmetic_and_api_refuted']
     correspondence_name = ('Model/Policy.v eval_code + Model/PolicyTable.v crud_step vs table/src/policy.rs PolicyTable / '
                            'apply_import / apply_export (harness/hx-policy); Model/PolicyGlobal.v gstep vs daemon/src/event/mod.rs Global '
